@@ -18,10 +18,10 @@ type ExprEnv struct {
 	Names []Binding
 	// NoSqrtFold replaces √ of a constant-foldable integer operand by √ of
 	// the equal float (known finding: the optimizer folds it to an INTEGER).
-	NoSqrtFold bool
+	NoSqrtFold      bool
 	SqrtFoldAvoided *int
-	Ternary    bool // allow non-nested ternaries
-	Calls      bool // allow calls of pure built-ins
+	Ternary         bool // allow non-nested ternaries
+	Calls           bool // allow calls of pure built-ins
 }
 
 func (e *ExprEnv) namesOf(k lang.Kind) []Binding {
